@@ -24,7 +24,7 @@ TRUSTED = ["vf/ic10_vm.py shadow stack", "vf/pyref.py for the echo traces"]
 
 def plan(tier, seed):
     q = tier == "quick"
-    tasks = pool.batches("echo", 700 if q else 9000, 10) + pool.batches("gen", 250 if q else 4000, 10) + pool.batches("recursion", 60 if q else 400, 20) + pool.batches("corpus", len(workload.corpus()), 2)
+    tasks = pool.batches("echo", 550 if q else 9000, 10) + pool.batches("tail", 200 if q else 3000, 10) + pool.batches("gen", 250 if q else 4000, 10) + pool.batches("recursion", 60 if q else 400, 20) + pool.batches("corpus", len(workload.corpus()), 2)
     for hz in ("void_tail_value", "for_list_call", "for_list_nested", "terminating_main"):
         tasks += pool.batches(f"defect:{hz}", 30 if q else 300, 10)
     return dict(tasks=tasks, nworkers=14, time_cap=85 if q else 880)
@@ -54,6 +54,8 @@ def gen_case(task, i):
     r = rng(seed_env(), ID, st, i)
     if st == "echo":
         src = gen_shapes.echo_program(r)
+    elif st == "tail":
+        src = gen_shapes.tail_program(r)
     elif st.startswith("defect:void_tail_value"):
         src = gen_shapes.echo_program(r, dict(void_tail_value=True))
     elif st == "recursion":
